@@ -316,7 +316,9 @@ def stepProvCore (d : ProvDrv) (a : Acc) (s : Step) : ProvDrv × Acc :=
   | "begin" =>
     -- the block header is advanced first
     let st := { st with now := st.now + s.op.int "dt", height := st.height + s.op.nat "dh" }
-    let st1 := beginBlockLaunch st (launchEnvOf before st)
+    match beginBlockLaunch? st (launchEnvOf before st) with
+    | none => ({ impl := after }, (a.tag "begin-fails").cmp s.lineNo "begin.res" "err" res)
+    | some st1 =>
     let st2 := beginBlockRemove st1
     let st3 := beginBlockInfraction st2
     let a := a.cmp s.lineNo "begin.res" "ok" res
